@@ -290,4 +290,147 @@ Proof.
     + split; [rewrite (sumf_perm _ _ _ txt_sorted_perm); lia|]. split; [exact Erl|].
       split; [eapply lab_ok_pext; eauto|]. cbn [map concat app] in Hperm. exact Hperm.
 Qed.
+
+(* ---- sizes and bounds *)
+Lemma sumf_map {X Y} (f : Y -> N) (g : X -> Y) l : sumf f (map g l) = sumf (fun x => f (g x)) l.
+Proof. induction l as [|x r IH]; [reflexivity|]. cbn [map]. rewrite !sumf_cons, IH. reflexivity. Qed.
+
+Lemma lenL_C : lenL C = sumf (fun sc => lenL (snd sc)) (a_cstrs a).
+Proof. unfold C, cs_cells. rewrite lenL_concat, sumf_map. reflexivity. Qed.
+
+Lemma size_small : size a + 32 <= ser_bound a.
+Proof. unfold ser_bound. lia. Qed.
+Lemma cell_small c : In c (cells a) -> c < U32.
+Proof. intros H. pose proof (wf_cells_in a WF c H). pose proof size_small. unfold fits32 in FIT. lia. Qed.
+
+Definition rp_of (groups : list (N * list N)) : list N :=
+  map fst (all_ptrs a) ++ concat (map (fun g => isort N.leb (map (trunc_w 32) (snd g))) groups).
+
+Section Groups.
+Variable groups : list (N * list N).
+Hypothesis Hperm : Permutation (concat (map snd groups)) (map fst (txt_sorted a)).
+
+Lemma groups_cells : Permutation (concat (map (fun g => isort N.leb (map (trunc_w 32) (snd g))) groups)) T.
+Proof.
+  rewrite groups_perm, Hperm. rewrite map_trunc_small; [exact txt_cells|].
+  apply Forall_forall. intros c Hc. apply cell_small, txt_cells_incl, Hc.
+Qed.
+Lemma rp_perm : Permutation (rp_of groups) (map fst (a_ptrs a ++ cs_ptrs a) ++ T).
+Proof.
+  unfold rp_of. apply Permutation_app; [apply Permutation_map, Permutation_sym, all_ptrs_perm | exact groups_cells].
+Qed.
+Lemma rp_cells : Permutation (rp_of groups) (cells a).
+Proof.
+  rewrite rp_perm, map_app. fold P. rewrite cs_ptrs_cells. unfold cells. fold P T C.
+  rewrite <- app_assoc. apply Permutation_app_head, Permutation_app_comm.
+Qed.
+Lemma rp_len : lenL (rp_of groups) = lenL (a_ptrs a) + sumf (fun sc => lenL (snd sc)) (a_cstrs a) + lenL (a_text a).
+Proof.
+  rewrite (lenL_perm _ _ rp_cells). unfold cells. rewrite !lenL_app. fold C. rewrite lenL_C. unfold lenL. rewrite !map_length. lia.
+Qed.
+Lemma rp_head_len : lenL (map fst (all_ptrs a)) + lenL (a_text a) = lenL (rp_of groups).
+Proof.
+  unfold rp_of. rewrite lenL_app, (lenL_perm _ _ groups_cells). unfold T. rewrite (lenL_map fst (a_text a)). reflexivity.
+Qed.
+End Groups.
+
+Lemma label_names_cons k b r : label_names ((k, b) :: r) = map (fun l => (k, l)) b ++ label_names r.
+Proof. reflexivity. Qed.
+Lemma label_names_len ls : lenL (label_names ls) = sumf (fun kb => lenL (snd kb)) ls.
+Proof.
+  induction ls as [|[k b] r IH]; [reflexivity|]. rewrite label_names_cons, lenL_app, lenL_map, sumf_cons, IH. reflexivity.
+Qed.
+Lemma label_names_in ls k l : In (k, l) (label_names ls) -> exists b, In (k, b) ls /\ In l b.
+Proof.
+  induction ls as [|[k0 b0] r IH]; [intros []|]. rewrite label_names_cons. intros H. apply in_app_or in H. destruct H as [H|H].
+  - apply in_map_iff in H. destruct H as (l0 & E & Hl0). inversion E; subst. exists b0. split; [left; reflexivity | exact Hl0].
+  - destruct (IH H) as (b & Hb & Hl). exists b. split; [right; exact Hb | exact Hl].
+Qed.
+
+Lemma names_at_app addr x y : names_at addr (x ++ y) = names_at addr x ++ names_at addr y.
+Proof. unfold names_at. rewrite filter_app, map_app. reflexivity. Qed.
+Lemma names_at_bucket addr k b : names_at addr (map (fun l => (k, l)) b) = if k =? addr then b else [].
+Proof.
+  unfold names_at. induction b as [|l r IH]; cbn [map filter fst]; [destruct (k =? addr); reflexivity|].
+  destruct (k =? addr) eqn:E; cbn [map snd]; rewrite IH; reflexivity.
+Qed.
+Lemma names_at_label_names ls addr : NoDup (map fst ls) ->
+  names_at addr (label_names ls) = match am_get addr ls with Some b => b | None => [] end.
+Proof.
+  induction ls as [|[k b] r IH]; intros Hd; [reflexivity|]. cbn [map fst] in Hd. inversion Hd as [|? ? Hn Hd']; subst.
+  rewrite label_names_cons, names_at_app, names_at_bucket, (IH Hd'). cbn [am_get].
+  rewrite (N.eqb_sym addr k). destruct (N.eqb_spec k addr) as [->|_]; [|reflexivity].
+  assert (G : am_get addr r = None) by (apply am_get_none; exact Hn). rewrite G. apply app_nil_r.
+Qed.
+
+(* every label name of the archive *)
+Lemma label_name_wf k l : In (k, l) (label_names (lab_sorted a)) -> k <= size a /\ ~ In 0 l /\ wfb l.
+Proof.
+  intros H. destruct (label_names_in _ _ _ H) as (b & Hb & Hl).
+  apply (Permutation_in _ (Permutation_sym lab_sorted_perm)) in Hb.
+  destruct (wf_labels a WF k b Hb) as (Hk & _ & HF). rewrite Forall_forall in HF. destruct (HF l Hl). auto.
+Qed.
+
+Lemma Forall2_len {X Y} (R : X -> Y -> Prop) l l' : Forall2 R l l' -> length l = length l'.
+Proof. induction 1; cbn [length]; congruence. Qed.
+Lemma Forall2_In_impl {X Y} (R1 R2 : X -> Y -> Prop) (Q : Y -> Prop) l l' :
+  Forall Q l' -> (forall x y, Q y -> R1 x y -> R2 x y) -> Forall2 R1 l l' -> Forall2 R2 l l'.
+Proof. intros HQ Hi HF. induction HF as [|x y l l' H HF IH]; constructor; inversion HQ; subst; auto. Qed.
+
+(* ---- the image, explicitly *)
+Section Final.
+Variables (d2 : bytes) (tpool2 : pool) (groups : list (N * list N)) (ltab : list (N * N)).
+Hypothesis L2 : lenN d2 = size a.
+Hypothesis Hok2 : pool_ok tpool2.
+Hypothesis Hlen : p_len tpool2 <= sumf (fun kb => sumf (fun l => lenN l + 1) (snd kb)) (a_labels a)
+                                  + sumf (fun cs => lenN (snd cs) + 1) (a_text a).
+Hypothesis Erl : snd (lab_run a) = flat ltab.
+Hypothesis HF : Forall2 (lab_ok (p_raw tpool2)) ltab (label_names (lab_sorted a)).
+Hypothesis Hperm : Permutation (concat (map snd groups)) (map fst (txt_sorted a)).
+
+Let rp := rp_of groups.
+Let dsz := size a + lenN (pool_bytes a).
+Let fsz := 32 + dsz + 4 * lenL rp + 8 * lenL ltab + lenN (p_raw tpool2).
+
+Definition image_of : bytes :=
+  enc e 4 fsz ++ enc e 4 dsz ++ enc e 4 (lenL rp) ++ enc e 4 (lenL ltab) ++ zeros 16
+  ++ (d2 ++ pool_bytes a) ++ u32s e rp ++ u32s e (flat ltab) ++ p_raw tpool2.
+
+Lemma ltab_len : lenL ltab = sumf (fun kb => lenL (snd kb)) (a_labels a).
+Proof.
+  unfold lenL at 1. rewrite (Forall2_len _ _ _ HF). fold (lenL (label_names (lab_sorted a))).
+  rewrite label_names_len. apply sumf_perm, Permutation_sym, lab_sorted_perm.
+Qed.
+Lemma pool_bytes_bound : lenN (pool_bytes a) <= sumf (fun sc => lenN (fst sc) + 1) (a_cstrs a) + 3.
+Proof.
+  destruct pool_bytes_shape as (k & _ & H1 & _). destruct cs_facts as ([Hl _] & _ & Hs & _). lia.
+Qed.
+Lemma fsz_bound : fsz <= ser_bound a.
+Proof.
+  unfold fsz, dsz, rp. rewrite (rp_len groups Hperm), ltab_len. destruct Hok2 as [Hl _]. pose proof pool_bytes_bound.
+  unfold ser_bound. lia.
+Qed.
+Lemma fsz_small : fsz < U32.
+Proof. pose proof fsz_bound. unfold fits32 in FIT. lia. Qed.
+
+Lemma lenN_image : lenN image_of = fsz.
+Proof.
+  unfold image_of. rewrite !lenN_app, !lenN_enc, !lenN_u32s, lenN_zeros, L2.
+  assert (E : lenL (flat ltab) = 2 * lenL ltab) by (unfold lenL; rewrite length_flat; lia).
+  rewrite E. unfold fsz, dsz. lia.
+Qed.
+
+Lemma assemble_ok m : assemble a m (d2, tpool2, groups) = Ok image_of.
+Proof.
+  pose proof fsz_small as Hs. unfold assemble. fold (rp_of groups). fold rp. rewrite Erl.
+  assert (E1 : N.of_nat (length rp) = lenL rp) by reflexivity.
+  assert (E2 : N.of_nat (length (flat ltab)) = 2 * lenL ltab) by (rewrite length_flat; unfold lenL; lia).
+  rewrite E1, E2. destruct Hok2 as [Hl _]. rewrite Hl.
+  replace (size a + lenN (pool_bytes a) + lenL rp * 4 + 2 * lenL ltab * 4 + lenN (p_raw tpool2) + 32) with fsz by (unfold fsz, dsz; lia).
+  replace (2 * lenL ltab / 2) with (lenL ltab) by lia.
+  unfold fsz, dsz in Hs. rewrite !trunc_small by (unfold U32 in *; lia).
+  rewrite add_w_ok by (unfold maxw; unfold U32 in Hs; lia). cbn [bind].
+  unfold image_of. fold dsz. rewrite <- !app_assoc. reflexivity.
+Qed.
+End Final.
 End Ser.
